@@ -151,6 +151,9 @@ func (g *wgen) run(seed uint64, proc, idx int) proto.RunRec {
 				if op.Share < 0 && r.p(0.2) {
 					op.ScribbleArg = true
 				}
+				if op.Share < 0 && r.p(0.25) {
+					op.ReuseBuf = true
+				}
 			}
 			if hasResult(op.Fn) && r.p(0.2) {
 				op.ScribbleRes = true
